@@ -634,9 +634,20 @@ class ExprMixin:
             ver = sub.version
             cond = S.TRUE
             for c in g.ifs:
-                r = self.ev(c, sub, sub_exc)
+                base_pc_len = len(sub.pc)
+                r = self.ev(c, sub.copy(), sub_exc)
                 if len(r) != 1:
-                    raise EngineError("comprehension condition forks (L%d)" % e.lineno)
+                    # a short-circuit and/or of effect-free tests: the alternatives differ in their path conditions only; the
+                    # condition is the disjunction of (path condition and value) over the alternatives
+                    if not r or any(s_.env.keys() != sub.env.keys() or any(s_.env[k_] is not sub.env[k_] for k_ in sub.env)
+                                    or s_.trace != sub.trace for s_, _ in r):
+                        raise EngineError("comprehension condition forks (L%d)" % e.lineno)
+                    alts = []
+                    for s_, v_ in r:
+                        extra_ = [f_ for f_ in s_.pc[base_pc_len:]]
+                        alts.append(S.And(*([V(BOOL, f_) for f_ in extra_] + [S.truthy(v_)])))
+                    cond = S.And(cond, S.Or(*alts))
+                    continue
                 sub, cv = r[0]
                 cond = S.And(cond, S.truthy(cv))
             base_len = len(s1.pc)
